@@ -494,7 +494,47 @@ def positive_edge(fn, bb, root_local):
     """block bb is dominated by the `Sign::Positive` edge of a match on sign() of the given local"""
     S = sym.Sym(fn)
     cfg = mir.cfg_of(fn["mir"])
+    def _is_sign_of_root(X):
+        if isinstance(X, tuple) and X[0] in ('ref', 'refmut'):
+            X = X[1]
+        if isinstance(X, tuple) and X[0] == 'call' and X[1] in SIGN_FNS and X[2]:
+            r = X[2][0]
+            while isinstance(r, tuple) and r[0] in ('ref', 'refmut', 'place'):
+                r = r[1]
+            return r == ('arg', root_local) or r == ('var', root_local)
+        return False
+
+    def _sign_const(X):
+        if isinstance(X, tuple) and X[0] in ('ref', 'refmut'):
+            X = X[1]
+        # `&Sign::Negative` is a promoted constant: look into the promoted body of this function
+        if isinstance(X, tuple) and X[0] == 'const' and isinstance(X[1], str) and X[1].startswith("promoted:"):
+            import re as _re2
+            mm = _re2.search(r"\[(\d+)\]$", X[1])
+            proms = fn.get("promoted") or []
+            if mm and int(mm.group(1)) < len(proms):
+                for blk in proms[int(mm.group(1))].get("bbs", []):
+                    for st in blk.get("s", []):
+                        if st["k"] == "as" and st["rv"]["k"] == "agg" and st["rv"].get("adt") == "dashu_base::sign::Sign":
+                            return st["rv"].get("vn")
+            return None
+        txt = sym.term_str(X, 120)
+        if "Sign::Positive" in txt or txt.endswith("Positive{}") or txt.endswith("::Positive"):
+            return "Positive"
+        if "Sign::Negative" in txt or txt.endswith("Negative{}") or txt.endswith("::Negative"):
+            return "Negative"
+        return None
+
     for c in guards.constraints_at(S, cfg, bb):
+        # `x.sign() == Sign::Negative` is false / `x.sign() == Sign::Positive` is true / `!=` mirrored
+        if c[0] == 'bool' and isinstance(c[1], tuple) and c[1][0] == 'call' and "PartialEq" in c[1][1] and len(c[1][2]) == 2:
+            meth = c[1][1].rsplit("::", 1)[-1]
+            a, b = c[1][2]
+            for x, y in ((a, b), (b, a)):
+                if _is_sign_of_root(x) and _sign_const(y):
+                    equal = c[2] if meth == "eq" else (not c[2])
+                    if (_sign_const(y) == "Positive" and equal) or (_sign_const(y) == "Negative" and not equal):
+                        return True
         if c[0] != 'unary':
             continue
         X = sym.strip_casts(c[1])
